@@ -23,6 +23,10 @@ class VisorTarInfo(tarfile.TarInfo):
     def frombuf(cls, buf: bytes, encoding: str, errors: str) -> VisorTarInfo:
         obj = super().frombuf(buf, encoding, errors)
 
+        if obj.size < 0:
+            # A negative (base-256) size moves the archive offset backwards: endless member iteration
+            raise tarfile.InvalidHeaderError("invalid size")
+
         obj.is_visor = buf[257:264] == b"visor  "
         if obj.is_visor:
             obj.offset_data = struct.unpack("<I", buf[496:500])[0]
